@@ -342,7 +342,7 @@ func TestC19(t *testing.T) {
 		w.initProvider(p, "https://p.example.com")
 		f, _ := w.postFile(a, c02Content(100), 2, 0)
 		w.honestProve(p, f)                                                                      // a FileProof record
-		w.f.Exec(rnstypes.NewMsgRegisterName(a.Bech, "alpha.jkl", 1, "{}", true))                // a primary name
+		w.f.Exec(newMsgRegisterName(a.Bech, "alpha.jkl", 1, "{}", true))                // a primary name
 		w.f.Exec(&notiftypes.MsgBlockSenders{Creator: a.Bech, ToBlock: []string{p.Bech}})        // a block entry
 		w.f.Exec(&notiftypes.MsgCreateNotification{Creator: a.Bech, To: p.Bech, Contents: "{}"}) // a real notification
 		r := c19RoundTrip(c, w.f.Ctx)
@@ -444,13 +444,13 @@ func TestC19(t *testing.T) {
 			w.f.Exec(&storagetypes.MsgAddClaimer{Creator: a.Bech, ClaimAddress: accs[4].Bech})
 			w.f.Exec(&oracletypes.MsgCreateFeed{Creator: a.Bech, Name: fmt.Sprintf("feed%d", i)})
 			w.f.Exec(&oracletypes.MsgUpdateFeed{Creator: a.Bech, Name: fmt.Sprintf("feed%d", i), Data: `{"price":"1"}`})
-			w.f.Exec(rnstypes.NewMsgRegisterName(a.Bech, fmt.Sprintf("owner%d.jkl", i), 1, "{}", i%2 == 0))
+			w.f.Exec(newMsgRegisterName(a.Bech, fmt.Sprintf("owner%d.jkl", i), 1, "{}", i%2 == 0))
 			w.f.Exec(&notiftypes.MsgCreateNotification{Creator: accs[(i+1)%3].Bech, To: a.Bech, Contents: "{}"})
 			w.buyStorage(a, a.Bech, 30, 1_000_000_000, "")
 			f, _ := w.postFile(a, append([]byte{byte(i + 1)}, c02Content(50)...), 2, 0)
 			w.honestProve(accs[(i+1)%3], f)
 			w.f.Exec(fttypes.NewMsgPostKey(a.Bech, fmt.Sprintf("key-of-%d", i)))
-			w.f.Exec(fttypes.NewMsgProvisionFileTree(a.Bech, "{}", "{}", fmt.Sprintf("tn%d", i)))
+			w.f.Exec(newMsgProvisionFileTree(a.Bech, "{}", "{}", fmt.Sprintf("tn%d", i)))
 		}
 		env := func() *fillEnv {
 			e := &fillEnv{Height: w.f.Height(), Names: []string{"owner0.jkl", "owner1.jkl", "owner2.jkl", "new.jkl", "other.ibc", "feed0", "feed1", "feed9"}}
